@@ -36,6 +36,24 @@ CHECKS = {
         "The reference grammar is derived from README, the parser module documentation and the property text; name characters / blanks are char::is_alphanumeric|'_' / char::is_whitespace.",
         "DESIGN.md section 6, C05",
     ),
+    "C06": (
+        "bounded-exhaustive enumeration + property-based testing (proptest): round trip and independent renderer",
+        "Complete for all trees of <=4 nodes over a small vocabulary (constructors); random exploration of larger / deeper trees from the parsers, preprocessing and the public constructors: print->parse is the identity, every node's stored text equals an independent canonical renderer, stored height = 1 + max child.",
+        "Identifiers are valid per the reference lexer (one word, not a constant spelling / non-empty name word).",
+        "DESIGN.md section 6, C06",
+    ),
+    "C07": (
+        "bounded-exhaustive enumeration + property-based testing (proptest): differential against an independent scope checker and structural alpha-equivalence",
+        "Complete for all binder/variable/jump skeletons of <=6 nodes; random exploration of larger formulae with injected invalidities: accept/reject agrees with the scope checker, accepted output is alpha-equivalent, named by nesting depth, name count = max depth, idempotent.",
+        "Propositions validated against a placeholder network holding the generator's name pool.",
+        "DESIGN.md section 6, C07",
+    ),
+    "C09": (
+        "property-based testing (proptest): differential against structural alpha-equivalence; independent re-count of duplicates",
+        "No counterexample among generated lists of preprocessed formulae with planted alpha-equivalent / near-equivalent sub-formulae: same canonical form <=> alpha-equivalent, renaming map correct and injective on free variables, idempotent, every reported duplicate (key, n) occurs >= n+1 times with identical free-variable domains. Exploration.",
+        "Needs the verif_hooks feature (re-export of crate-private canonisation functions). Inputs restricted to sub-formulae of preprocessed formulae (documented precondition).",
+        "DESIGN.md section 6, C09",
+    ),
 }
 
 PENDING_REASON = "check not built yet in this session (work in progress; see DESIGN.md section 10)"
